@@ -9,7 +9,9 @@ EXTENDS Grids, TLC, Json, IOUtils, SequencesExt
 
 QuatShapes  == {"v3", "v4", "v2", "v5", "m1x4", "scalar", "empty"}          \* for Quaternion(...)
 (* (an empty (0,4) array holds no invalid rotation: not a table row) *)
-ArrayShapes == {"N3", "N4", "N2", "v4", "N5", "NxNx4"}                       \* for QuaternionArray(...)
+(* the same N-by-3 / N-by-4 content in another memory layout: Fortran order, a strided view of a larger array *)
+LayoutShapes == {"N4[F-order]", "N3[F-order]", "N4[strided-view]"}
+ArrayShapes == {"N3", "N4", "N2", "v4", "N5", "NxNx4"} \cup LayoutShapes           \* for QuaternionArray(...)
 Fills       == {"finite", "zero", "nan", "inf", "string", "none-entry"}
 ArrayFills  == Fills \cup {"one-zero-row", "one-nan-row"}
 (* magnitude classes: 10^d for the decades, and the two codes 1 / -1 for "a unit direction scaled by 1 +- 3 ppm"  *)
@@ -20,13 +22,18 @@ VersorFlags == {TRUE, FALSE}
 
 MatClasses  == {"rotation", "rotation+1e-12", "reflection", "scaled-up", "scaled-down", "sheared",
                 "non-orthogonal", "nan-entry", "inf-entry", "zero", "2x2", "3x3x3-bad", "stack-of-rotations",
-                "stack-one-reflection"}
+                "stack-one-reflection", "stack-of-rotations[F-order]",
+                "rotation[F-order]", "rotation[transposed-view]", "rotation[strided-view]", "rotation[int-dtype]", "rotation[read-only]"}
+(* a proper rotation handed over in another memory layout or element type (content unchanged): Fortran order, a   *)
+(* transposed view (R.T of the transpose), a strided view of a larger array, integer dtype (signed permutation     *)
+(* matrices), a read-only array                                                                                     *)
+LayoutClasses == {"rotation[F-order]", "rotation[transposed-view]", "rotation[strided-view]", "rotation[int-dtype]", "rotation[read-only]"}
 DcmRoutes   == {"matrix", "q=", "x=", "y=", "z=", "xyz=", "rpy=", "euler=", "axang="}
 
 (* ------------------------------ decision table ------------------------------ *)
 QuatAccepts(shape, fill)  == shape \in {"v3", "v4"} /\ fill = "finite"
-ArrayAccepts(shape, fill) == shape \in {"N3", "N4"} /\ fill = "finite"
-MatAccepts(mc)            == mc \in {"rotation", "rotation+1e-12", "stack-of-rotations"}
+ArrayAccepts(shape, fill) == shape \in {"N3", "N4"} \cup LayoutShapes /\ fill = "finite"
+MatAccepts(mc)            == mc \in {"rotation", "rotation+1e-12", "stack-of-rotations", "stack-of-rotations[F-order]"} \cup LayoutClasses
 
 VARIABLES call,     \* the last constructor call: its class record
           out       \* "none" | "valid" | "rejected"
@@ -37,15 +44,16 @@ ArrayCalls == [ctor : {"QuaternionArray"}, shape : ArrayShapes, fill : ArrayFill
 MatCtors   == {"DCM", "Quaternion(dcm=)", "QuaternionArray(DCM=)"}
 DcmCalls   == [ctor : MatCtors, route : {"matrix"}, mc : MatClasses]
               \cup [ctor : {"DCM"}, route : DcmRoutes \ {"matrix"}, mc : {"rotation", "nan-entry", "zero"}]
+              \cup [ctor : {"DCM"}, route : {"q=", "axang="}, mc : {"rotation[int-dtype]"}]       \* integer quaternion / integer axis
 AllCalls   == QuatCalls \cup ArrayCalls \cup DcmCalls
 
 Expected(c) == IF c.ctor = "Quaternion" THEN (IF QuatAccepts(c.shape, c.fill) THEN "valid" ELSE "rejected")
                ELSE IF c.ctor = "QuaternionArray" THEN (IF ArrayAccepts(c.shape, c.fill) THEN "valid" ELSE "rejected")
-               ELSE IF c.ctor = "Quaternion(dcm=)" THEN (IF c.mc \in {"rotation", "rotation+1e-12"} THEN "valid" ELSE "rejected")
-               ELSE IF c.ctor = "QuaternionArray(DCM=)" THEN (IF c.mc = "stack-of-rotations" THEN "valid" ELSE "rejected")
+               ELSE IF c.ctor = "Quaternion(dcm=)" THEN (IF c.mc \in {"rotation", "rotation+1e-12"} \cup LayoutClasses THEN "valid" ELSE "rejected")
+               ELSE IF c.ctor = "QuaternionArray(DCM=)" THEN (IF c.mc \in {"stack-of-rotations", "stack-of-rotations[F-order]"} THEN "valid" ELSE "rejected")
                ELSE IF c.route = "matrix" THEN (IF MatAccepts(c.mc) THEN "valid" ELSE "rejected")
                ELSE \* keyword routes: finite parameters always give a rotation; a zero quaternion / axis or NaN cannot
-                    IF c.mc = "rotation" THEN "valid"
+                    IF c.mc \in {"rotation", "rotation[int-dtype]"} THEN "valid"
                     ELSE IF c.mc = "zero" /\ c.route \in {"x=", "y=", "z=", "xyz=", "rpy=", "euler="} THEN "valid"   \* zero angles
                     ELSE "rejected"
 
@@ -57,11 +65,11 @@ Spec == Init /\ [][Next]_vars
 (* the property: nothing that cannot be a rotation is ever wrapped *)
 OnlyRotations == out = "valid" =>
                    \/ call.ctor = "Quaternion" /\ call.fill = "finite" /\ call.shape \in {"v3", "v4"}
-                   \/ call.ctor = "QuaternionArray" /\ call.fill = "finite" /\ call.shape \in {"N3", "N4"}
+                   \/ call.ctor = "QuaternionArray" /\ call.fill = "finite" /\ call.shape \in {"N3", "N4"} \cup LayoutShapes
                    \/ call.ctor \in MatCtors /\ call.mc \notin {"reflection", "scaled-up", "scaled-down", "sheared", "non-orthogonal",
                                                           "nan-entry", "inf-entry", "2x2", "3x3x3-bad", "stack-one-reflection"}
 (* and every finite, non-zero vector of either admissible shape is accepted, whatever its magnitude *)
 AllDirectionsAccepted == (call.ctor \in {"Quaternion", "QuaternionArray"} /\ call.fill = "finite"
-                          /\ call.shape \in {"v3", "v4", "N3", "N4"} /\ ~(call.ctor = "QuaternionArray" /\ call.shape = "v4")
-                          /\ ~(call.ctor = "Quaternion" /\ call.shape \in {"N3", "N4"})) => out = "valid"
+                          /\ call.shape \in {"v3", "v4", "N3", "N4"} \cup LayoutShapes /\ ~(call.ctor = "QuaternionArray" /\ call.shape = "v4")
+                          /\ ~(call.ctor = "Quaternion" /\ call.shape \in {"N3", "N4"} \cup LayoutShapes)) => out = "valid"
 =============================================================================
